@@ -166,6 +166,8 @@ pub struct Ctx {
     pub notes: BTreeMap<String, u64>,
     /// enumerated mode: the scenario is selected by index rather than by the tape (see props)
     pub enum_index: Option<u64>,
+    /// print events as they happen (debugging stuck runs)
+    pub live: bool,
 }
 
 impl Ctx {
@@ -180,6 +182,7 @@ impl Ctx {
             sim_time_ns: 0,
             notes: BTreeMap::new(),
             enum_index: None,
+            live: std::env::var_os("VERIF_LIVE").is_some(),
         }
     }
     pub fn ev(&mut self, line: &str) {
@@ -189,6 +192,9 @@ impl Ctx {
         }
         self.log_hash ^= 0x0a;
         self.log_hash = self.log_hash.wrapping_mul(0x0000_0100_0000_01B3);
+        if self.live {
+            eprintln!("  | {line}");
+        }
         if let Some(t) = &mut self.trace {
             if t.len() < 4000 {
                 t.push(line.to_string());
